@@ -348,7 +348,8 @@ impl G1Affine {
 
     /// Attempts to deserialize an uncompressed element.
     fn from_uncompressed(bytes: &[u8; UNCOMPRESSED_SIZE]) -> CtOption<Self> {
-        G1Affine::from_uncompressed_unchecked(bytes).and_then(|p| CtOption::new(p, p.is_on_curve()))
+        G1Affine::from_uncompressed_unchecked(bytes)
+            .and_then(|p| CtOption::new(p, p.is_on_curve() & p.is_torsion_free()))
     }
 
     /// Attempts to deserialize an uncompressed element, not checking if the
